@@ -121,7 +121,7 @@ func (h *sysHarness) nwaiting() int {
 
 // waitFor waits until n calls are waiting at the gate
 func (h *sysHarness) waitFor(n int) bool {
-	deadline := time.Now().Add(3 * time.Second)
+	deadline := time.Now().Add(15 * time.Second) // (patience for a busy machine: the call only has to be scheduled)
 	for h.nwaiting() != n {
 		if time.Now().After(deadline) {
 			return false
